@@ -321,3 +321,24 @@ fn c01_drain_buffered_first() {
     kani::cover!(!eor);
     core::mem::forget((msgs, p));
 }
+
+//@ id=C01 tier=quick cap=1200 mem=30 deterministic=yes
+//@ fn: peer_tx::PendingTx::buffer_messages, PendingTx::unreach, PendingTx::drain_messages
+//@ bound: ONE concrete execution (no symbolic value): buffered message, withdrawal under id 7, End-of-RIB scheduled, one drain; unwind 6
+//@ desc: concrete companion of c01_drain_buffered_first: same ordering assertion on one fixed input, so that a refutation can be re-run natively even when the trace of the symbolic harness is too large for kani-driver to turn into a playback test
+#[kani::proof]
+#[kani::unwind(6)]
+fn c01_drain_buffered_first_fixed() {
+    let mut p = PendingTx::new(false);
+    let b = Box::into_raw(Box::new([bgp::Message::Keepalive])) as *mut bgp::Message;
+    p.buffer_messages(unsafe { Vec::from_raw_parts(b, 1, 1) });
+    p.unreach(7, prefix(false), 0);
+    p.schedule_eor();
+    let msgs = p.drain_messages(Family::IPV4);
+    assert!(p.is_empty());
+    assert!(msgs.len() == 3);
+    assert!(matches!(&msgs[0], bgp::Message::Keepalive));
+    assert!(matches!(&msgs[1], bgp::Message::Update(bgp::Update::Unreach { .. })));
+    assert!(matches!(&msgs[2], bgp::Message::Update(bgp::Update::EndOfRib(_))));
+    core::mem::forget((msgs, p));
+}
